@@ -27,6 +27,9 @@ package tcc
 //@ func (*TCCServiceProxy).getActionContextParameters
 //@   trusted
 //@   ensures result != nil
+//@ func (*TCCServiceProxy).initActionContext
+//@   trusted
+//@   ensures result != nil
 //@ func (*TCCServiceProxy).getOrCreateBusinessActionContext
 //@   trusted
 //@   ensures result != nil
@@ -59,6 +62,7 @@ package tcc
 //@   ensures refusal-surfaces: global && called("BranchRegister#1") && callres("BranchRegister#1", 1) != nil ==> result != nil
 //@   ensures branch-id-kept: global && result == nil && called("BranchRegister#1") ==> cv.(*tm.ContextVariable).BusinessActionContext != nil && cv.(*tm.ContextVariable).BusinessActionContext.BranchId == callres("BranchRegister#1", 0) && cv.(*tm.ContextVariable).BusinessActionContext.Xid == cv.(*tm.ContextVariable).Xid && cv.(*tm.ContextVariable).BusinessActionContext.ActionName == t.TCCResource.TwoPhaseAction.actionName
 //@   at call BranchRegister#1: assert tcc-branch-of-this-action: arg_param.BranchType == branch.BranchTypeTCC && arg_param.ResourceId == t.TCCResource.TwoPhaseAction.actionName && arg_param.Xid == cv.(*tm.ContextVariable).Xid && arg_param.LockKeys == "" && called("Marshal#1") && arg_param.ApplicationData == string(callres("Marshal#1", 0))
+//@   at call Marshal#1: assert the-application-data-is-the-tagged-parameters: isT(arg_v, map[string]interface{}) && called("initActionContext#1") && isT(arg_v.(map[string]interface{})[constant.ActionContext], map[string]interface{}) && arg_v.(map[string]interface{})[constant.ActionContext].(map[string]interface{}) == callres("initActionContext#1", 0)
 //@   range 1 invariant true
 
 //@ func (*TCCServiceProxy).Prepare
